@@ -1,15 +1,18 @@
 """C16 — copying, rechunking, recompressing and per-chunk merging preserve the data.
 
-Model: lean/StraxModel/Model/Copy.lean (copyData / rechunkPlan + runOps over a store of directories /
-rechunkOnLoad / perChunkJob + perChunkMerge / chunk_number lineage tagging) on top of the saver-loader
-protocol of C03 and the chunk algebra / rechunker of C07; theorems: Props/C16.lean.
-Tie: the REAL `Context.copy_to_frontend`, `strax.rechunker` (serial / "thread"; "process" in the thorough
-tier), `rechunk_on_load` through `Context.get_iter` and through the frontend loader, per-chunk
+Model: lean/StraxModel/Model/Copy.lean (copyData / copyLoop + copyToAll (a loader per destination frontend) /
+rechunkPlan + runOps over a store of directories / rechunkOnLoad / perChunkJob + perChunkMerge / chunk_number
+lineage tagging) on top of the saver-loader protocol of C03 and the chunk algebra / rechunker of C07;
+theorems: Props/C16.lean (the preservation theorems are `…_partial`: ordinary-run data, see its header).
+Tie: the REAL `Context.copy_to_frontend` (1-3 destination frontends in one call), `strax.rechunker` (serial /
+"thread" / a few "process" cases in both tiers), `rechunk_on_load` through `Context.get_iter` and through the
+frontend loader, per-chunk
 `Context.make(chunk_number=…)` + `merge_per_chunk_storage`, `Context.key_for(chunk_number=…)`, all on data
 stored by real plugins of a real Context in scratch directories, against the compiled driver ops `c16.*`:
-canonicalised destination metadata (as in c03.py), the directory listing with independently decompressed
+canonicalised destination metadata (c03.py's format without the filesize flag), the directory listing with independently decompressed
 contents, the loaded chunks, the sequence of directory-level operations of the stand-alone rechunker
-(traced by rebinding `os` / `shutil` / `save_file` names inside strax) and the equality pattern of keys.
+(traced by rebinding `os` / `shutil` / `save_file` names inside strax) and the equality pattern of keys; a
+subset of all operations is repeated with every time shifted to epoch scale (T0 = 1.7e18 ns, above 2**53).
 Oracle (independent of the model): loaded rows bit-identical to the original / the directly-made data
 (raw bytes), metadata consistent with the new files (n, nbytes, filesize, start/end, first/last times,
 compressor, target size), source directory listing + file hashes unchanged at EVERY traced operation unless
@@ -47,11 +50,18 @@ TRUSTED = [
     "and compared byte-wise), np.frombuffer, dtype.descr <-> literal_eval, json round trip",
     "directory-level operations of strax.rechunker are observed by rebinding `os` / `shutil` inside strax.storage.files and "
     "strax.storage.file_rechunker and `strax.save_file` (thread mode: real ThreadPoolExecutor + mailbox threads, OS scheduling not "
-    "enumerated; process mode: final states only)",
+    "enumerated; process mode: chunk writes happen in worker processes and are not traced, the remaining operations and final states are)",
+    "the Lean model is the serial protocol: parallel='thread' / 'process' of the rechunker and the threaded processor are tied by "
+    "correspondence of traces / final states only",
     "lineage hashing (sha1/base32 of the json lineage) is assumed injective on the lineages that occur; the model takes an injective "
     "hash as a parameter and the check compares equality patterns of keys",
 ]
 ASSUMPTIONS = [
+    "stored layouts are ORDINARY-run data (plain run id, chunks without subruns): the composed theorems rest on C07 rechunk_stream_partial / "
+    "C03 roundtrip_rechunk_partial, which are proved for un-annotated streams, and are therefore named …_partial; super-run data is neither "
+    "generated nor covered (per-chunk processing of super-runs is refused by strax itself)",
+    "metadata is compared with the model without the filesize flag (it depends on serial / executor saving); nbytes / filesize / compressor / "
+    "target size are checked by the oracle against the real files",
     "rows are identified by an opaque id; bit-identity of all other bytes is checked by the oracle on the real arrays (4 dtypes in both tiers)",
     "target_size_mb / chunk_target_size_mb / chunk_source_size_mb are mapped monotonically to a row count",
     "per-chunk processing is modelled for plugins that compute chunk by chunk without state (LoopPlugin / OverlapWindowPlugin are "
